@@ -9,6 +9,7 @@
 package lib
 
 import (
+	"io"
 	"encoding/hex"
 	"encoding/json"
 	"fmt"
@@ -880,4 +881,27 @@ func LenPrefixRewrites(valid []byte, maxFields int) [][]byte {
 		}
 	}
 	return out
+}
+
+// ---------------------------------------------------------------- short reads
+
+// ShortReader wraps a reader so that every Read returns at most 1..5 octets
+// (a pipe, a connection, a chunked deterministic source): io.Reader allows it,
+// and code that needs n octets has to use io.ReadFull.  The bytes delivered
+// are the ones the wrapped reader would have delivered.
+type ShortReader struct {
+	R io.Reader
+	n int
+}
+
+func (s *ShortReader) Read(p []byte) (int, error) {
+	if len(p) == 0 {
+		return 0, nil
+	}
+	s.n++
+	k := 1 + (s.n*7)%5
+	if k > len(p) {
+		k = len(p)
+	}
+	return io.ReadFull(s.R, p[:k])
 }
